@@ -92,18 +92,18 @@ func D(kv ...interface{}) map[string]interface{} {
 func pointAlphabet() []*rm.Pt {
 	return []*rm.Pt{
 		0:  {TS: 1 * sec, Dims: D("x", 1, "y", true, "r", "A"), Vals: D("a", 2.0, "b", 0.5, "w", 2)},     // exact boundary
-		1:  {TS: 1*sec + 1, Dims: D("x", 1, "y", true, "r", "A"), Vals: D("a", 3, "w", 2)},                // 1 ns past the boundary, int value
-		2:  {TS: 3 * sec / 2, Dims: D("x", 1, "y", true, "r", "B"), Vals: D("a", 2.0)},                    // mid period, filtered by t2/v1
-		3:  {TS: 2 * sec, Dims: D("x", 1, "y", false, "r", "A"), Vals: D("a", 3, "b", 0.5)},               // other y
-		4:  {TS: 3 * sec, Dims: D("x", "1", "y", true, "r", "A"), Vals: D("a", 2.0)},                      // string-typed x
-		5:  {TS: sec / 2, Dims: D("x", 1, "y", true, "r", "A"), Vals: D("a", 5.0, "w", 1)},                // older period (out of order after others)
-		6:  {TS: 1 * sec, Dims: D("x", 2, "r", "A"), Vals: D("a", 2.0)},                                   // missing dim y
-		7:  {TS: 1 * sec, Dims: D("y", true, "r", "A"), Vals: D("a", "str", "zz", 7.0)},                   // only an unselected value is numeric
-		8:  {TS: 1 * sec, Dims: D("x", 1, "y", true, "r", "A"), Vals: D("a", "str")},                      // no usable value at all
-		9:  {TS: 12 * sec, Dims: D("x", 1, "y", true, "r", "A"), Vals: D("a", 2.0)},                       // moves the clock: earlier periods expire
-		10: {TS: 2 * sec, Dims: D("x", 1, "y", true, "r", "A"), Vals: D("a", -1.0, "b", 0.5)},             // outside BOUNDED, new MIN
-		11: {TS: 1 * sec, Dims: D("x", 1, "y", true, "r", "A"), Vals: D("a", []int{1, 2, 4})},             // array value (D9)
-		12: {TS: 5 * sec / 2, Dims: D("x", 2, "y", false, "r", "A"), Vals: D("b", 0.5, "w", 2)},           // a absent
+		1:  {TS: 1*sec + 1, Dims: D("x", 1, "y", true, "r", "A"), Vals: D("a", 3, "w", 2)},               // 1 ns past the boundary, int value
+		2:  {TS: 3 * sec / 2, Dims: D("x", 1, "y", true, "r", "B"), Vals: D("a", 2.0)},                   // mid period, filtered by t2/v1
+		3:  {TS: 2 * sec, Dims: D("x", 1, "y", false, "r", "A"), Vals: D("a", 3, "b", 0.5)},              // other y
+		4:  {TS: 3 * sec, Dims: D("x", "1", "y", true, "r", "A"), Vals: D("a", 2.0)},                     // string-typed x
+		5:  {TS: sec / 2, Dims: D("x", 1, "y", true, "r", "A"), Vals: D("a", 5.0, "w", 1)},               // older period (out of order after others)
+		6:  {TS: 1 * sec, Dims: D("x", 2, "r", "A"), Vals: D("a", 2.0)},                                  // missing dim y
+		7:  {TS: 1 * sec, Dims: D("y", true, "r", "A"), Vals: D("a", "str", "zz", 7.0)},                  // only an unselected value is numeric
+		8:  {TS: 1 * sec, Dims: D("x", 1, "y", true, "r", "A"), Vals: D("a", "str")},                     // no usable value at all
+		9:  {TS: 12 * sec, Dims: D("x", 1, "y", true, "r", "A"), Vals: D("a", 2.0)},                      // moves the clock: earlier periods expire
+		10: {TS: 2 * sec, Dims: D("x", 1, "y", true, "r", "A"), Vals: D("a", -1.0, "b", 0.5)},            // outside BOUNDED, new MIN
+		11: {TS: 1 * sec, Dims: D("x", 1, "y", true, "r", "A"), Vals: D("a", []int{1, 2, 4})},            // array value (D9)
+		12: {TS: 5 * sec / 2, Dims: D("x", 2, "y", false, "r", "A"), Vals: D("b", 0.5, "w", 2)},          // a absent
 		13: {TS: 4 * sec, Dims: D("x", 1, "y", true, "r", "A", "extra", "e"), Vals: D("a", 2.0, "w", 0)}, // extra dim, zero weight
 	}
 }
